@@ -1,6 +1,9 @@
 package main
 
 import (
+	"context"
+	"math/rand"
+	"sync"
 	"bufio"
 	"fmt"
 	"io"
@@ -232,6 +235,9 @@ func (s *Solver) checkOnce(asserts []*Term, wantModel bool, extra []*Term) (stri
 	if !wantModel && res != "unknown" {
 		s.cache[key] = res
 	}
+	if xcheckOn && (res == "sat" || res == "unsat") {
+		xcheckRecord(key, res, useStr)
+	}
 	return res, model, p
 }
 
@@ -330,4 +336,92 @@ func parseGetValue(s string, n int) ([]string, error) {
 		return nil, fmt.Errorf("expected %d values, got %d", n, len(out))
 	}
 	return out, nil
+}
+
+// ---- cross-solver check (thorough tier): a reservoir sample of decided queries is re-decided by the other z3
+// and by cvc5 on fresh processes; a sat/unsat disagreement makes the run inconclusive.
+
+type xq struct {
+	text   string
+	res    string
+	useStr bool
+}
+
+var (
+	xcheckOn   bool
+	xcheckMu   sync.Mutex
+	xcheckSeen int
+	xcheckRes  []xq
+	xcheckRng  = rand.New(rand.NewSource(7))
+)
+
+const xcheckCap = 240
+
+func xcheckRecord(text, res string, useStr bool) {
+	xcheckMu.Lock()
+	defer xcheckMu.Unlock()
+	xcheckSeen++
+	if len(xcheckRes) < xcheckCap {
+		xcheckRes = append(xcheckRes, xq{text, res, useStr})
+		return
+	}
+	if i := xcheckRng.Intn(xcheckSeen); i < xcheckCap {
+		xcheckRes[i] = xq{text, res, useStr}
+	}
+}
+
+func runOneShot(bin string, args []string, query string) string {
+	ctx, cancel := context.WithTimeout(context.Background(), 30*time.Second)
+	defer cancel()
+	cmd := exec.CommandContext(ctx, bin, args...)
+	cmd.Stdin = strings.NewReader(query)
+	out, _ := cmd.CombinedOutput()
+	for _, l := range strings.Split(string(out), "\n") {
+		l = strings.TrimSpace(l)
+		if l == "sat" || l == "unsat" || l == "unknown" {
+			return l
+		}
+	}
+	return "unknown"
+}
+
+// xcheckRun returns (#queries re-decided, #answers by the second solvers, #disagreements, sample of disagreements).
+func xcheckRun() (int, int, int, []string) {
+	xcheckMu.Lock()
+	qs := append([]xq{}, xcheckRes...)
+	xcheckMu.Unlock()
+	answered, bad := 0, 0
+	var notes []string
+	var mu sync.Mutex
+	var wg sync.WaitGroup
+	sem := make(chan struct{}, 16)
+	for _, q := range qs {
+		wg.Add(1)
+		sem <- struct{}{}
+		go func(q xq) {
+			defer wg.Done()
+			defer func() { <-sem }()
+			other := "z3-new"
+			if q.useStr {
+				other = "z3"
+			}
+			r1 := runOneShot(other, []string{"-in", "-T:20"}, q.text+"(check-sat)\n")
+			r2 := runOneShot("cvc5", []string{"--lang=smt2", "--strings-exp", "--tlimit=20000"}, "(set-logic ALL)\n"+q.text+"(check-sat)\n")
+			mu.Lock()
+			defer mu.Unlock()
+			for _, r := range []string{r1, r2} {
+				if r == "sat" || r == "unsat" {
+					answered++
+					if r != q.res {
+						bad++
+						if len(notes) < 3 {
+							notes = append(notes, fmt.Sprintf("primary %s, other %s on: %s", q.res, r, firstLines(q.text, 40)))
+						}
+					}
+				}
+			}
+		}(q)
+	}
+	wg.Wait()
+	return len(qs), answered, bad, notes
 }
